@@ -192,6 +192,7 @@ def lossmin_case(draw, tier):
     # bound the total work of a pathological run (outer iterations x Dykstra sweeps per projection); runs that hit
     # either cap are inconclusive
     c["max_iter_proj"] = 500 if tier == "quick" else 3000
+    c["prior_use"] = draw(st.sampled_from(PRIOR_USES))
     return c
 
 
@@ -220,11 +221,31 @@ def run_lossmin(case, qt, empi, detailed=True):
         max_iteration_proj_physical=case.get("max_iter_proj", 3000),
         **({"eps": case["algo_eps"]} if case.get("algo_eps") else {}),
     )
+    prior = case.get("prior_use")
+    if prior:
+        # the same loss and algorithm objects have served another configuration of the same tomography before
+        # (other constraint flags / projection order, a handful of iterations); what they did then must not matter now
+        _, prior_opt = make_algo(
+            case["algo"],
+            on_algo_eq_constraint=prior["constraints"][0],
+            on_algo_ineq_constraint=prior["constraints"][1],
+            mode_proj_order=prior["order"],
+            max_iteration_optimization=5,
+            max_iteration_proj_physical=200,
+        )
+        try:
+            LossMinimizationEstimator().calc_estimate(qt, empi, loss, loss_opt, algo, prior_opt)
+        except ValueError:
+            pass
     res = LossMinimizationEstimator().calc_estimate(
         qt, empi, loss, loss_opt, algo, algo_opt,
         is_computation_time_required=detailed, is_detailed_results_required=detailed,
     )
     return res, loss
+
+
+PRIOR_USES = [None, None, {"constraints": [True, False], "order": "eq_ineq"}, {"constraints": [False, True], "order": "ineq_eq"},
+              {"constraints": [True, True], "order": "ineq_eq"}]
 
 
 def proj_cap_hit(ctx, configured=None):
@@ -364,6 +385,7 @@ def recovery_case(draw, tier):
     c["constraints"] = [True, True]
     c["max_iter"] = 2000 if tier == "quick" else 5000
     # (large factors make every step project a far point: restricted to state tomography, whose projection converges fast)
+    c["prior_use"] = draw(st.sampled_from(PRIOR_USES))
     c["wscale"] = draw(st.sampled_from([1.0, 1e2, 1e3, 1e4, 1e6])) if c["tomo"] == "qst" else 1.0
     if c["wscale"] != 1.0:
         c["algo_eps"] = 1e-14 * c["wscale"]  # the loss-difference threshold scales with the loss: same stopping point
